@@ -192,6 +192,7 @@ Lemma good_new_ref x (s : st) g :
   Good s g ->
   fr_file x < s_nexth pfs s -> fr_node x < nlen s ->
   (forall p, fr_parent x = Some p -> fr_xattrOf x = None /\ tref s p /\ p < rlen s) ->
+  (fr_parent x = None -> fr_xattrOf x = None -> fr_node x = 0) ->
   match fr_xattrOf x with
   | None => (forall q, q < rlen s -> tref s q -> fr_file (gref s q) <> fr_file x) /\
             (pn_deleted (gnode s (fr_node x)) = false ->
@@ -202,7 +203,7 @@ Lemma good_new_ref x (s : st) g :
   end ->
   Good (snd (new_ref pfs x s)) g.
 Proof.
-  intros G Hf Hn Hp Hx.
+  intros G Hf Hn Hp Hroot Hx.
   destruct (new_ref_facts pfs x s) as (_ & L1 & Gn & Go & _). cbv zeta in *.
   set (s' := snd (new_ref pfs x s)) in *. fold (rlen s) in *. fold (rlen s') in L1.
   assert (BE : s_be pfs s' = s_be pfs s) by reflexivity.
@@ -249,6 +250,10 @@ Proof.
   - intros r o Hr E. destruct (CASE r Hr) as [Ho | ->].
     + rewrite (Go r Ho) in E |- *. eapply (G_xmode _ _ G); eauto.
     + rewrite Gn in E |- *. cbn [fr_xattrOf fr_mode fr_with_refs] in E |- *. rewrite E in Hx. apply Hx.
+  - intros r Hr Ep T. destruct (CASE r Hr) as [Ho | ->].
+    + rewrite (Go r Ho) in Ep |- *. destruct (OLD r Ho) as (_ & B & _). apply (G_root _ _ G); tauto.
+    + unfold tref in T. rewrite Gn in Ep, T |- *. cbn [fr_xattrOf fr_parent fr_node fr_with_refs] in *. auto.
+  - intros n. rewrite GN. apply (G_keys _ _ G).
   - pose proof (G_len _ _ G). lia.
 Qed.
 
@@ -303,6 +308,8 @@ Proof.
     + constructor; try reflexivity; auto.
       * intros _. split; auto. intros p m. unfold node_at. apply walk_ext. eapply add_ext; eauto.
       * lia.
+      * intros K m. rewrite GN. destruct (m =? n); [|apply K]. unfold X. apply pkeys_with_nodes; [apply K|].
+        apply (gaset_nodup Nat.eqb Nat.eqb_spec). apply K.
     + split; [exact Hnew|]. split; [unfold c, nlen in *; lia|]. split; [exact NT'|].
       split; [reflexivity|]. split; [reflexivity|]. split; [reflexivity|].
       intros _ _. rewrite DEL. unfold get_node. rewrite nth_overflow by (unfold c; lia). reflexivity.
@@ -339,10 +346,6 @@ Proof.
   rewrite hpath_bind, Nat.eqb_refl. cbn. rewrite app_nil_r. repeat split; auto. congruence.
 Qed.
 
-Lemma entries_resolve fs fs' p : p_entries fs' = p_entries fs -> resolve fs' p = resolve fs p.
-Proof.
-  intros E. rewrite !resolve_walk. apply walk_eq. intros. unfold entry. rewrite E. reflexivity.
-Qed.
 
 Lemma pfs_step_walk fs c h nm nh : is_walk c h nm nh -> h <> nh ->
   let r := pfs_step fs c in
@@ -595,7 +598,7 @@ Proof.
   assert (G4 : Good (snd (new_ref_handover pfs wr x s2)) g).
   { unfold new_ref_handover. set (s2' := with_held pfs (remove_one wr (s_held pfs s2)) s2).
     assert (G2' : Good s2' g) by (eapply shrink_good; [apply sh_with_held | exact G2]).
-    apply good_new_ref; [exact G2' | | | |].
+    apply good_new_ref; [exact G2' | | | | intros [=] |].
     - cbn. change (s_nexth pfs s2') with (s_nexth pfs s2). lia.
     - cbn. exact B2.
     - intros p [= <-]. split; [reflexivity|]. change (rlen s2') with (rlen s2). rewrite RL2. split; auto.
@@ -648,7 +651,7 @@ Proof.
   assert (G2 : Good (snd (new_ref_inc pfs x s1)) g).
   { unfold new_ref_inc.
     assert (GN : Good (snd (new_ref pfs x s1)) g).
-    { apply good_new_ref; [exact G1 | | | |].
+    { apply good_new_ref; [exact G1 | | | | cbn; intros Ep _; apply (G_root _ _ G ref Lr Ep EX) |].
       - cbn. lia.
       - cbn. pose proof (G_nbound _ _ G ref Lr). pose proof (S_nlen _ _ SH1). unfold x0. lia.
       - intros p Hp. cbn in Hp. destruct (G_parent _ _ G ref p Lr Hp) as (_ & Tp & Lp).
@@ -752,7 +755,7 @@ Proof.
     assert (Gt : Good s1' g) by (eapply shrink_good; [apply sh_take_handle | exact G1]).
     set (x := mkref (s_nexth pfs s) 0 false 0 MNone 0 None None XNone).
     assert (G2 : Good (snd (new_ref pfs x s1')) g).
-    { apply good_new_ref; [exact Gt | | | |].
+    { apply good_new_ref; [exact Gt | | | | reflexivity |].
       - cbn. lia.
       - cbn. apply (N_pos _ (G_nt _ _ Gt)).
       - intros p [=].
@@ -893,7 +896,7 @@ Proof.
     assert (G3 : Good (snd (new_ref_inc pfs x s2)) g).
     { unfold new_ref_inc.
       assert (GN : Good (snd (new_ref pfs x s2)) g).
-      { apply good_new_ref; [exact G2 | | | |].
+      { apply good_new_ref; [exact G2 | | | | intros [=] |].
         - cbn. rewrite H2. cbn. lia.
         - cbn. exact B2.
         - intros p [= <-]. split; [reflexivity|]. rewrite RL2. split; auto. unfold tref. rewrite GR2. exact Tr.
@@ -948,7 +951,7 @@ Proof.
     assert (G2 : Good (snd (new_ref_inc pfs x s1)) g).
     { unfold new_ref_inc.
       assert (GN : Good (snd (new_ref pfs x s1)) g).
-      { apply good_new_ref; [exact G1 | | | |].
+      { apply good_new_ref; [exact G1 | | | | intros _ [=] |].
         - cbn. pose proof (G_file _ _ G r Lr). pose proof (S_nexth _ _ SH1). lia.
         - cbn. pose proof (G_nbound _ _ G r Lr). pose proof (S_nlen _ _ SH1). lia.
         - intros p [=].
